@@ -15,6 +15,8 @@ const KINDS: &[(&str, u8, &str)] = &[
     ("r-xp", 0, ""), ("---p", 1, ""), ("r-xp", 0, "/usr/lib/liba.so (deleted)"), ("---p", 0, "[vdso]"),
     // lines whose file offset equals the end of the previous line (identity-mapped devices, continued files)
     ("rw-s", 2, "/dev/mem"), ("rw-p", 2, ""), ("r--p", 2, "/usr/lib/libb.so.1"),
+    // pseudo-names that differ only in their argument (per-thread stacks of older kernels, named anonymous regions)
+    ("rw-p", 0, "[stack:1234]"), ("rw-p", 0, "[stack:77]"), ("rw-p", 0, "[anon:jemalloc]"),
 ];
 pub fn perms_bits(p: &str) -> u64 {
     let b = p.as_bytes();
